@@ -43,12 +43,16 @@ class PyKdebugParser:
         self.dyld_uuids = []
 
     def kevents(self, kdebug: io.IOBase):
+        return self._kevents(kdebug, self.filter_class, self.filter_subclass)
+
+    def _kevents(self, kdebug: io.IOBase, filter_class, filter_subclass):
         events_generator = KdBufParser(self.threads_pids, self.pids_names).parse(kdebug)
         events_generator = filter(lambda e: not isinstance(e, OsLogEvent), events_generator)
         if self.filter_tid is not None:
             events_generator = filter(lambda e: e.tid == self.filter_tid, events_generator)
-        if self.filter_class or self.filter_subclass:
-            events_generator = filter(lambda e: self._is_eventid_allowed(e.eventid), events_generator)
+        if filter_class or filter_subclass:
+            events_generator = filter(lambda e: self._is_eventid_in(e.eventid, filter_class, filter_subclass),
+                                      events_generator)
         return events_generator
 
     def formatted_kevents(self, kdebug: io.IOBase, trace_codes=None):
@@ -58,17 +62,20 @@ class PyKdebugParser:
     def traces(self, kdebug: io.IOBase, trace_codes=None):
         trace_codes_map = default_trace_codes() if trace_codes is None else trace_codes
 
-        has_filters = self.filter_class or self.filter_subclass
-        add_trace_class = has_filters and DBG_TRACE not in self.filter_class
+        # The classes needed for decoding are added to a copy, the caller's filters are left as they were set.
+        filter_class = list(self.filter_class)
+        filter_subclass = list(self.filter_subclass)
+        has_filters = filter_class or filter_subclass
+        add_trace_class = has_filters and DBG_TRACE not in filter_class
         if add_trace_class:
-            self.filter_class.append(DBG_TRACE)
-        has_bsd = DBG_BSD in self.filter_class or any(filter(lambda sc: sc >> 8 == DBG_BSD, self.filter_subclass))
-        add_fs_class = has_filters and has_bsd and DBG_FSYSTEM not in self.filter_class
+            filter_class.append(DBG_TRACE)
+        has_bsd = DBG_BSD in filter_class or any(filter(lambda sc: sc >> 8 == DBG_BSD, filter_subclass))
+        add_fs_class = has_filters and has_bsd and DBG_FSYSTEM not in filter_class
         if add_fs_class:
-            self.filter_class.append(DBG_FSYSTEM)
+            filter_class.append(DBG_FSYSTEM)
 
         traces_parser = TracesParser(trace_codes_map, self.threads_pids, self.pids_names)
-        trace_generator = traces_parser.feed_generator(self.kevents(kdebug))
+        trace_generator = traces_parser.feed_generator(self._kevents(kdebug, filter_class, filter_subclass))
 
         if self.filter_process is not None:
             trace_generator = filter(self._filter_process_callback, trace_generator)
@@ -184,4 +191,8 @@ class PyKdebugParser:
         return event_rep
 
     def _is_eventid_allowed(self, event_id):
-        return (event_id >> 24 in self.filter_class) or (event_id >> 16 in self.filter_subclass)
+        return self._is_eventid_in(event_id, self.filter_class, self.filter_subclass)
+
+    @staticmethod
+    def _is_eventid_in(event_id, filter_class, filter_subclass):
+        return (event_id >> 24 in filter_class) or (event_id >> 16 in filter_subclass)
